@@ -4,20 +4,32 @@ import struct
 FEAT_ID0 = 1001          # feature f (1-based) has id FEAT_ID0 + f - 1
 NAME_ID0 = 256           # and label name id NAME_ID0 + f - 1
 LANG_TAGS = [0x656E0000, 0x76696500]   # 'en', 'vie' (zero padded) for language k = 1, 2
+# feature ids are 32-bit names: every third font uses ids from all over the range (tag-like and beyond 2^31)
+WIDE_IDS = [0x00000005, 0x6B646F74, 0x7FFFFFF0, 0x80000001, 0xC0DE0000, 0xFFFF0001, 0xFFFFFFFE]
 
 
-def feat_table(defs, version=0x00020000):
+def feature_ids(defs):
     n = len(defs)
+    if (n + 2 * sum(len(d) for d in defs)) % 3 == 0 and n <= len(WIDE_IDS):
+        step = len(WIDE_IDS) // n
+        off = sum(len(d) for d in defs) % (len(WIDE_IDS) - step * (n - 1))
+        return [WIDE_IDS[off + step * f] for f in range(n)]
+    return [FEAT_ID0 + f for f in range(n)]
+
+
+def feat_table(defs, version=0x00020000, ids=None):
+    n = len(defs)
+    ids = ids or [FEAT_ID0 + f for f in range(n)]
     rec = 16 if version >= 0x00020000 else 12
     hdr = struct.pack(">IHHI", version, n, 0, 0)
     settings_off = 12 + rec * n
     recs, sets = b"", b""
     for f, d in enumerate(defs):
-        fid, name = FEAT_ID0 + f, NAME_ID0 + f
+        fid, name = ids[f], NAME_ID0 + f
         if version >= 0x00020000:
             recs += struct.pack(">IHHIHH", fid, len(d), 0, settings_off + len(sets), 0, name)
         else:
-            recs += struct.pack(">HHIHH", fid, len(d), settings_off + len(sets), 0, name)
+            recs += struct.pack(">HHIHH", fid & 0xFFFF, len(d), settings_off + len(sets), 0, name)
         for v in d:
             sets += struct.pack(">HH", v & 0xFFFF, name)
     return hdr + recs + sets
@@ -69,6 +81,7 @@ def scalars_from_utf32(u32):
 
 def from_case(c):
     defs = c["defs"]
+    ids = feature_ids(defs)
     langs = []
     for k, row in enumerate(c["langs"]):
         ov = []
@@ -76,14 +89,14 @@ def from_case(c):
             d = defs[f]
             dflt = d[0] if d else 0
             if v != dflt:
-                ov.append((FEAT_ID0 + f, v))
+                ov.append((ids[f], v))
         langs.append((LANG_TAGS[k], ov))
     # the order of the Sill entries is a choice of the writer, not part of the abstract map: half of the fonts list the
     # languages in descending tag order (the reader does not require a sorted table)
     if (len(defs) + sum(len(d) for d in defs)) & 1:
         langs.reverse()
     names = {NAME_ID0 + f: lab["u32"] for f, lab in enumerate(c["labels"])}
-    return {"feat_hex": feat_table(defs).hex(), "sill_hex": sill_table(langs).hex(), "name_hex": name_table(names).hex()}
+    return {"ids": ids, "feat_hex": feat_table(defs, ids=ids).hex(), "sill_hex": sill_table(langs).hex(), "name_hex": name_table(names).hex()}
 
 
 def name_table_dual(ids):
